@@ -70,6 +70,13 @@ MENU = {
     # math / a list left open although the document environment is closed
     'openmath_end': '\\documentclass{article}\\begin{document}t $x + y \\end{document}',
     'openlist_end': '\\documentclass{article}\\begin{document}\\begin{enumerate}\\item a\\begin{enumerate}\\item b \\end{document}',
+    # a glue register assigned from another register
+    'glueassign': art('\\parskip=\\baselineskip t \\topsep=\\parskip u'),
+    # a column type that exists from the start (as if a package had registered it at import time) with no attributes
+    'colW1': art('\\begin{tabular}{|W|c|}u&v\\end{tabular}'),
+    'colW2': art('\\begin{tabular}{Wc}u&v\\end{tabular}'),
+    # a program that edits its document's character substitutions in place
+    'pycharsub': art('u -- v --- w'),
     'unkpkg': '\\documentclass{article}\\usepackage{zzunknownpkg}\\usepackage[opt]{zzotherpkg}\\begin{document}u v\\end{document}',
     'input': art('\\input{zz-no-such-file} t \\IfFileExists{zz-no-such-file.tex}{ya}{na}'),
     # programs that register a column type through the Python API before using it (same letter, different attributes)
@@ -111,6 +118,10 @@ def process(name, do_render=False):
                 letter, style = PYSETUP[name]
                 ColumnType.new(letter, {'style': dict(style)})
             tex = TeX()
+            if name == 'pycharsub':
+                cs = tex.ownerDocument.charsubs
+                for pair in [x for x in cs if x[0] in ('--', '---')]:
+                    cs.remove(pair)
             tex.ownerDocument.context.warnOnUnrecognized = False
             tex.input(src)
             doc = tex.parse()
@@ -382,6 +393,8 @@ def replay(case):
 def run(tier, seed, rep):
     import os
     os.environ['TEXINPUTS'] = '/nonexistent-vp-texinputs'     # a search path that is set, so that restoring it matters
+    from plasTeX.Base.LaTeX.Arrays import ColumnType
+    ColumnType.new('W', {})         # before the pristine snapshot: part of the initial state of every history
     state.pristine()
     quick = tier == 'quick'
     global MENU_ORDER
